@@ -129,3 +129,48 @@ def features(tree):
         for x in tree["xs"]:
             walk(x, "")
     return sorted(out)
+
+
+def cps(s):
+    return "".join(map(chr, s)) if isinstance(s, list) else s
+
+
+def from_tla(node):
+    """A tagged tree printed by TLC (text payloads as code-point arrays) -> the projection's form.
+    Numerals are canonicalised here: int "radix:[sign]digits" -> decimal text, real text -> repr(float)."""
+    t, s = node["t"], cps(node["s"])
+    if t == "int":
+        radix, _, digits = s.partition(":")
+        s = str(int(digits, int(radix)))
+    elif t == "real":
+        s = repr(float(s))
+    return {"t": t, "s": s, "xs": [from_tla(x) for x in node["xs"]]}
+
+
+def ref_outcome(o):
+    """Reference outcome record printed by TLC -> python form."""
+    r = dict(o)
+    if "tree" in r and r.get("verdict") == "accept":
+        r["tree"] = from_tla(r["tree"])
+    for k in ("why", "locus"):
+        if k in r and isinstance(r[k], list):
+            r[k] = cps(r[k])
+    return r
+
+
+import re as _re
+_FLOATWORD = _re.compile(r"(?i)(?<![A-Za-z0-9_])[+-]?(inf|infinity|nan)(?![A-Za-z0-9_])")
+_UNDERSCORE_NUM = _re.compile(r"[0-9]_[0-9]")
+_DASHCONT = _re.compile(r"-[\n\r\f]")
+
+
+def text_features(text):
+    """Lexical features of a text that known findings are keyed on (computed from the text only)."""
+    out = []
+    if _FLOATWORD.search(text):
+        out.append("python-float-word")
+    if _UNDERSCORE_NUM.search(text):
+        out.append("digit-underscore")
+    if _DASHCONT.search(text):
+        out.append("dash-continuation")
+    return out
